@@ -427,6 +427,28 @@ def _ldexp(ctx):
     ctx.ensures += conj(ens, 2)
 
 
+@row("frexp", "BB", "B", types=FLOAT_TYPES, prop="C02")
+def _frexp(ctx):
+    """x = m * 2^e with 0.5 <= |m| < 1 for normal x (m keeps sign and fraction of x, its exponent field is that of 0.5; e is the unbiased
+    exponent + 1); zero gives (zero, 0).  Subnormal, infinite and NaN lanes are outside the contract (DESIGN 7: the generic kernel ignores them)"""
+    x, e = ctx.args
+    R = ctx.ret = bind_ret(ctx, "B")
+    W = ctx.w
+    bias, nmb, S, one = (127, 23, "s32", "(u32)1") if W == 32 else (1023, 52, "s64", "(u64)1")
+    emax = 2 * bias + 1
+    ens = []
+    for i in range(ctx.n):
+        xi, xp = x.lane(i), x.lane_pre(i)
+        field = lambda v: "((%s >> %d) & %d)" % (v, nmb, emax)
+        ctx.requires.append("(%s || (%s >= 1 && %s <= %d))" % (ctx.spec("iszero", xp), field(xp), field(xp), emax - 1))
+        keep = "(u%d)~((u%d)%d << %d)" % (W, W, emax, nmb)
+        m = "((%s & %s) | ((u%d)%d << %d))" % (xi, keep, W, bias - 1, nmb)
+        ens.append("(%s ? (%s && %s == 0) : (%s == %s && (%s)%s == (%s)%s - %d))" % (
+            ctx.spec("iszero", xi), ctx.spec("iszero", R.lane(i)), e.lane(i), R.lane(i), m, S, e.lane(i), S, field(xi), bias - 1))
+    ctx.ensures += conj(ens, 2)
+    ctx.assigns.append("*%s" % e.cname)
+
+
 # ---- C08: rounding -------------------------------------------------------------------------------------------------------
 def _rounding(spec):
     def build(ctx):
